@@ -102,7 +102,7 @@ Proof.
       dbind H. apply as_bool_inv in E0. subst v. rewrite compile_stmt_while.
       destruct (compile_block k body) as [pb k1] eqn:EC. cbn [fst].
       destruct a.
-      * dbind H. destruct o0 as [s1|v1].
+      * dbind H. destruct o0 as [sq|vq].
         -- destruct (IHb _ _ _ _ _ _ k tmps E0) as (po1 & Hr1 & Hs1). rewrite EC in Hr1. cbn [fst] in Hr1.
            apply sim_normal_inv in Hs1. destruct Hs1 as (tmps1 & ->).
            destruct (IHs _ _ _ _ _ _ k tmps1 H) as (po & Hr & Hs). rewrite compile_stmt_while, EC in Hr. cbn [fst] in Hr.
@@ -110,7 +110,7 @@ Proof.
         -- inversion H; subst.
            destruct (IHb _ _ _ _ _ _ k tmps E0) as (po1 & Hr1 & Hs1). rewrite EC in Hr1. cbn [fst] in Hr1.
            destruct (sim_return_inv _ _ _ Hs1) as (ps' & ->).
-           exists (PRet v1 ps'). split; [|reflexivity].
+           exists (PRet vq ps'). split; [|reflexivity].
            eapply R_WhileExit; [eapply pe_sto; eauto | exact Hr1 | intros; discriminate].
       * inversion H; subst. exists (PNormal (PS s (VCtx C) tmps)). split; [|cbn; auto].
         eapply R_WhileFalse. eapply pe_sto; eauto.
@@ -170,24 +170,24 @@ Proof.
     + dbind H. cbn [compile_block]. destruct (compile_stmt k st) as [px k1] eqn:EC1.
       destruct (compile_block k1 r) as [pr k2] eqn:EC2. cbn [fst].
       destruct (IHs _ _ _ _ _ _ k tmps E) as (po1 & Hr1 & Hs1). rewrite EC1 in Hr1. cbn [fst] in Hr1.
-      destruct o0 as [s1|v1].
+      destruct o0 as [sq|vq].
       * apply sim_normal_inv in Hs1. destruct Hs1 as (tmps1 & ->).
         destruct (IHb _ _ _ _ _ _ k1 tmps1 H) as (po & Hr & Hs). rewrite EC2 in Hr. cbn [fst] in Hr.
         exists po. split; auto. eapply RB_Cons; eauto.
       * inversion H; subst. destruct (sim_return_inv _ _ _ Hs1) as (ps' & ->).
-        exists (PRet v1 ps'). split; [|reflexivity]. eapply RB_Exit; [exact Hr1 | intros; discriminate].
+        exists (PRet vq ps'). split; [|reflexivity]. eapply RB_Exit; [exact Hr1 | intros; discriminate].
   - (* for loops *)
     unfold for_ok. intros s mu C p l i body o mu' k tmps H. rewrite for_loop_S in H. unfold for_loop_body in H.
     destruct (store_get mu l) as [vs|] eqn:EG; [|discriminate].
     destruct (nth_error vs i) as [x|] eqn:EN.
-    + dbind H. destruct (bind_pat p x s) as [s1|] eqn:B; cbn in E; inversion E; subst a.
+    + dbind H. destruct (bind_pat p x s) as [sb|] eqn:B; cbn in E; inversion E; subst a.
       destruct (IHb _ _ _ _ _ _ k tmps E0) as (po1 & Hr1 & Hs1).
-      destruct o0 as [s2|v1].
+      destruct o0 as [sq|vq].
       * apply sim_normal_inv in Hs1. destruct Hs1 as (tmps1 & ->).
         destruct (IHf _ _ _ _ _ _ _ _ _ k tmps1 H) as (po & Hr & Hs).
         exists po. split; auto. eapply RF_Step; eauto.
       * inversion H; subst. destruct (sim_return_inv _ _ _ Hs1) as (ps' & ->).
-        exists (PRet v1 ps'). split; [|reflexivity]. eapply RF_Exit; eauto. intros; discriminate.
+        exists (PRet vq ps'). split; [|reflexivity]. eapply RF_Exit; eauto. intros; discriminate.
     + inversion H; subst. exists (PNormal (PS s (VCtx C) tmps)). split; [|cbn; auto]. eapply RF_Done; eauto.
 Qed.
 
